@@ -39,7 +39,11 @@ RULE = (
     "character of each class latin1-named / bmp-named / bmp-unnamed / astral / C1) x charset; render with "
     "encoding_errors strict|replace|ignore <-> htmlentityreplace per charset; h x u entity trim on two kinds of value "
     "with the same text (plain str, Markup, other str subclass, object with __html__); decode.<enc1> <-> decode.<enc2> "
-    "on the same values. Every case runs through every operation as a direct call "
+    "on the same values; malformed/truncated bytes <-> well-formed bytes through one decode.<enc> (utf_8, utf_16, "
+    "utf_16_le, shift_jis, euc_kr, ascii; every cut of every sample, judged per call against CPython's strict decoder); "
+    "filters on equal-but-different non-string values (True/1/1.0, False/0/0.0), an unhashable list and an object whose "
+    "text changes with every str(); (vi) plain text that spells character references (3 prefixes x 22 bodies x with/without "
+    "';'), alone in 4 contexts and all ordered pairs. Every case runs through every operation as a direct call "
     "(h x u entity trim; decode.utf8/latin1/ascii on str, bytes, other object; str.encode(cs,'htmlentityreplace') for 5 "
     "charsets); the template routes (${v|f}, ${v|n,decode.X}, Template(output_encoding=cs, encoding_errors=...).render) "
     "run on every case in thorough and, in quick, on the cases of the first two contexts and all words (decode "
@@ -52,14 +56,16 @@ ASSUMPTIONS = [
     "the escaping filters act character by character (checked structurally by the aligned oracle on every case), so single characters in contexts plus all short words over the markup alphabet cover their behaviour",
     "ascii, latin-1, cp1251, shift_jis and utf-8 are stateless codecs: encodability is decided per character with CPython's strict codec",
     "the reference decoder knows &name; (html.entities name2codepoint / html5), &#N; and &#xH; with no HTML5 remapping; html.unescape is used as a second decoder only where it does not remap",
-    "decode.<enc> on bytes that are not valid in <enc> is DONT_CARE (UnicodeDecodeError or any str accepted)",
+    "decode.<enc> on bytes that are not valid in <enc>: in the grid DONT_CARE (UnicodeDecodeError or any str); in the byte sequences UnicodeDecodeError or the decoding with replacement marks is accepted, bytes vanishing silently is not; malformed bytes are only fed in fresh child interpreters, never to the long-lived workers",
+    "filters on non-string values: h and entity are called directly and behind n; x, u and trim only behind the default str filter (they are defined on strings)",
     "CPython str, re, codecs, html, urllib.parse are trusted",
     "process history: the grid runs in long-lived workers (any order-dependent failure is located by core.find_prelude and reported with its prelude); order independence itself is checked on the sequence family only (one earlier step: handler/filters, error policies per charset, value kinds with equal text, decode encodings), not for every pair of cases",
     "h on a value that declares itself safe (Markup, object with __html__) is DONT_CARE between the text and its escaped form; a standard encoding_errors policy is judged against str.encode(cs, policy) (the documented meaning of the parameter), strict raising UnicodeEncodeError",
 ]
 BOUNDS = {
     "quick": {
-        "sequences": "handler/filters 5 characters (one per class, picked by the seed) x 5 charsets; policies 4 charsets x {strict,replace,ignore}; 6 pairs of value kinds; 3 pairs of decode encodings; x 2 orders = 92 fresh interpreters",
+        "sequences": "handler/filters 5 characters (one per class, picked by the seed) x 5 charsets; policies 4 charsets x {strict,replace,ignore}; 6 pairs of string-like value kinds + 6 number pairs + list + changing object; 3 pairs of decode encodings; 6 encodings malformed/well-formed bytes; x 2 orders = 120 fresh interpreters",
+        "reference_spellings": "132 spellings x 4 contexts + 132^2 ordered pairs (template routes on the singles)",
         "code_points": "U+0000..U+FFFF minus surrogates + first and last 256 of planes 1..16 (71680)",
         "contexts": ["{}", "A{}B", "{}{}", "&{};", " {}\n"],
         "word_len": 3,
@@ -69,7 +75,8 @@ BOUNDS = {
         "charsets": ["ascii", "latin-1", "cp1251", "shift_jis", "utf-8"],
     },
     "thorough": {
-        "sequences": "handler/filters 20 characters (4 per class) x 5 charsets; policies 4 charsets x 3; 6 pairs of value kinds; 3 pairs of decode encodings; x 2 orders = 242 fresh interpreters",
+        "sequences": "handler/filters 20 characters (4 per class) x 5 charsets; policies 4 charsets x 3; 6+6+2 pairs of value kinds; 3 pairs of decode encodings; 6 encodings malformed/well-formed bytes; x 2 orders = 270 fresh interpreters",
+        "reference_spellings": "132 spellings x 4 contexts + 132^2 ordered pairs (template routes on all)",
         "code_points": "every Unicode scalar value U+0000..U+10FFFF minus surrogates (1112064)",
         "contexts": ["{}", "A{}B", "{}{}", "&{};", " {}\n", "<{}>", "{}A{}", "&#{};"],
         "word_len": 4,
@@ -103,7 +110,7 @@ def data(seed):
         "A": POOL_A[k],
         "B": POOL_B[k],
         "M": ["<", ">", '"', "'", "&", ";", "#", "x", "1", "a", " ", "\n", "amp", "&amp;", "&#",
-              POOL_L1[k], POOL_NAMED[k], POOL_ASTRAL[k], POOL_BMP[k]],
+              POOL_L1[k], POOL_NAMED[k], POOL_ASTRAL[k], POOL_BMP[k], "&#x", "3C"],
         "dec": POOL_DEC[k],
     }
 
@@ -141,6 +148,43 @@ def in_family_i(s, tier, ctxs):
         p = t.index("{}")
         if len(s) > p and in_cpset(ord(s[p]), tier) and t.replace("{}", s[p]) == s:
             return True
+    return False
+
+
+REF_PREFIX = ["&", "&amp;", "&amp;amp;"]
+REF_BODY = ["#60", "#x3c", "#x3C", "#X3C", "lt", "LT", "euro", "#x20AC", "#x20ac", "#8364", "#x110000", "#1114112",
+            "#xD800", "#0", "#x0", "#x80", "#128", "bogus", "Eacute", "#", "#x", "#xZZ"]
+REF_TERM = [";", ""]
+REF_CONTEXTS = ["{}", "A{}B", "<{}>", "{}&"]
+
+
+def ref_spellings():
+    """plain TEXT that spells a character reference: decimal, lower/upper hex, named, unknown, out of range,
+    surrogate, C1, with and without the terminator, bare and behind one or two levels of &amp;"""
+    return [p + b + t for p in REF_PREFIX for b in REF_BODY for t in REF_TERM]
+
+
+def min_tokens(s, M, limit):
+    """fewest tokens of M that concatenate to s (limit+1 if more than limit or impossible)"""
+    best = {0: 0}
+    for i in range(len(s)):
+        if i not in best or best[i] >= limit:
+            continue
+        for tok in M:
+            if s.startswith(tok, i):
+                j = i + len(tok)
+                if best.get(j, limit + 1) > best[i] + 1:
+                    best[j] = best[i] + 1
+    return best.get(len(s), limit + 1)
+
+
+def in_family_ii(s, tier, d):
+    k = BOUNDS[tier]["word_len"]
+    for t in word_contexts(tier, d):
+        pre, post = t.split("{}")
+        if len(s) >= len(pre) + len(post) and s.startswith(pre) and s.endswith(post):
+            if min_tokens(s[len(pre) : len(s) - len(post)], d["M"], k) <= k:
+                return True
     return False
 
 
@@ -566,7 +610,8 @@ def check_string(s, st, I, tmpl=True, parts=ALL_PARTS, charsets=None, decs=None)
 
 def full_sig(op, sig):
     # footprint: operation + failing feature (the charset is not part of it: the handler is one function)
-    return "%s:%s" % ("htmlentityreplace" if op.startswith("enc.") else op, sig)
+    fam = "htmlentityreplace" if op.startswith("enc.") else ("decode" if op.startswith("decode.") else op)
+    return "%s:%s" % (fam, sig)
 
 
 def order_sig(op, suffix):
@@ -657,12 +702,16 @@ def check_case(s, st, I, tmpl=True):
 POOL_C1 = ["\x85", "\x80", "\x9f", "\x91"]
 POLICIES = ["strict", "replace", "ignore"]
 KINDS = ["plain", "markup", "strsub", "htmlobj"]
+# values that are not strings: equal-but-different numbers, an unhashable value, an object whose text changes
+NUM_TRIPLES = [("True", "1", "1.0"), ("False", "0", "0.0")]
+NONSTR_VALUES = {"True": True, "1": 1, "1.0": 1.0, "False": False, "0": 0, "0.0": 0.0}
 STEP_TEXT = {
     "enc": "an earlier htmlentityreplace encode in the process",
     "filters": "earlier filter calls in the process",
     "policy": "an earlier render to the same charset with another encoding_errors",
     "kinds": "an earlier call on another kind of value with the same text",
     "decode": "an earlier decode.<other encoding> of the same value",
+    "dbytes": "earlier malformed / well-formed bytes through the same decode.<enc>",
 }
 AFTER_ENC = ":after " + STEP_TEXT["enc"]
 
@@ -697,11 +746,102 @@ def seq_groups(tier, seed):
     for i, k1 in enumerate(KINDS):
         for k2 in KINDS[i + 1 :]:
             groups.append(["kinds %s %s" % (k1, k2), texts, ["kinds", k1], ["kinds", k2]])
+    for trip in NUM_TRIPLES:
+        for i, k1 in enumerate(trip):
+            for k2 in trip[i + 1 :]:
+                groups.append(["kinds %s %s" % (k1, k2), ["-"], ["kinds", k1], ["kinds", k2]])
+    groups.append(["kinds list plain", ["[1, '<" + d["A"] + ">']"], ["kinds", "list"], ["kinds", "plain"]])
+    groups.append(["kinds changing plain", [d["A"] + "<1>", d["A"] + "<2>"], ["kinds", "changing"], ["kinds", "plain"]])
+    btexts = [d["A"] + d["B"], "c" + d["A"] + "f" + d["M"][15], d["M"][16], d["M"][17] + d["B"], d["M"][18] + d["M"][15]]
+    for enc in DBYTES_ENCODINGS:
+        good, bad = byte_inputs(btexts, enc)
+        if good and bad:
+            groups.append(["dbytes " + enc, [], ["dbytes", enc, [b.hex() for b in bad]], ["dbytes", enc, [b.hex() for b in good]]])
     dtexts = [d["A"] + d["B"], d["M"][15], d["A"] + d["M"][16] + d["M"][17]]
     for i, e1 in enumerate(("utf-8", "latin-1", "ascii")):
         for e2 in ("utf-8", "latin-1", "ascii")[i + 1 :]:
             groups.append(["decode %s %s" % (e1, e2), dtexts, ["decode", e1], ["decode", e2]])
     return groups
+
+
+DBYTES_ENCODINGS = ["utf_8", "utf_16", "utf_16_le", "shift_jis", "cp1251", "ascii", "euc_kr"]
+
+
+def byte_inputs(texts, enc):
+    """(well-formed, malformed) byte strings for one encoding; well/mal-formedness decided by CPython's strict decoder"""
+    good, bad = [], []
+    for tx in texts:
+        try:
+            b = tx.encode(enc)
+        except UnicodeEncodeError:
+            continue
+        good.append(b)
+        for cut in range(1, len(b)):
+            for cand in (b[:cut], b[cut:]):
+                try:
+                    str(cand, enc)
+                except UnicodeDecodeError:
+                    if cand not in bad:
+                        bad.append(cand)
+    for cand in (b"\xff", b"\x80", b"a\xffb", b"\xc3", b"\xe2\x82", b"\xf0\x9d\x84", b"\x00\xd8", b"\x81"):
+        try:
+            str(cand, enc)
+        except UnicodeDecodeError:
+            if cand not in bad:
+                bad.append(cand)
+    return good, bad
+
+
+def check_dbytes(b, st, I, enc):
+    """decode.<enc>(bytes), each call judged on its own against CPython's strict decoder"""
+    from mako.template import Template
+
+    key = ("dbytes", enc)
+    if key not in I:
+        I[key] = (getattr(I["filters"].decode, enc), Template("${v | n,decode.%s}" % enc).render_unicode)
+    try:
+        exp = str(b, enc)
+    except UnicodeDecodeError:
+        exp = None
+    viol = []
+    op = "decode." + enc
+    for route, f in zip(("direct", "template"), I[key]):
+        st.evaluations += 1
+        st.transitions += 1
+        st.oracles["decode"] += 1
+        try:
+            out = f(b) if route == "direct" else f(v=b)
+        except UnicodeDecodeError as e:
+            if exp is not None:
+                viol.append((op, route, "well-formed bytes raise UnicodeDecodeError", "decode raises on bytes that are valid in the encoding", str(e)[:200]))
+            continue
+        except Exception as e:  # noqa
+            viol.append((op, route, "bytes raise " + type(e).__name__, "decode raises", "%s: %s" % (type(e).__name__, str(e)[:200])))
+            continue
+        if not isinstance(out, str):
+            viol.append((op, route, "bytes not str", "decode does not return str", type(out).__name__))
+        elif exp is None:
+            # malformed input: the statement does not fix the answer, but bytes must not vanish silently:
+            # either the strict decoder's error or a decoding that marks the damage
+            if out != b.decode(enc, "replace"):
+                viol.append((op, route, "malformed bytes silently altered", "malformed bytes neither raise UnicodeDecodeError nor decode with a replacement mark", out))
+        elif out != exp:
+            viol.append((op, route, "bytes wrong text", "decode returns a different text than the strict decoder", out))
+    return viol
+
+
+class _Changing:
+    """an object whose text changes with every str()"""
+
+    def __init__(self, base):
+        self.base = base
+        self.n = 0
+        self.last = None
+
+    def __str__(self):
+        self.n += 1
+        self.last = "%s<%d>" % (self.base, self.n)
+        return self.last
 
 
 class _StrSub(str):
@@ -767,7 +907,17 @@ def check_kinds(text, st, I, kind):
     from mako.template import Template
 
     viol = []
-    v = make_kind(kind, text)
+    nonstr = kind in NONSTR_VALUES or kind in ("list", "changing")
+    if kind in NONSTR_VALUES:
+        v = NONSTR_VALUES[kind]
+    elif kind == "list":
+        v = [1, "<" + I["d"]["A"] + ">"]
+    elif kind == "changing":
+        v = I.setdefault("changing", _Changing(I["d"]["A"]))
+        if text != I["d"]["A"] + "<1>":
+            return viol  # one object per process, visited once per step
+    else:
+        v = make_kind(kind, text)
     for name in ("h", "x", "u", "entity", "trim"):
         if kind == "htmlobj" and name != "h":
             continue  # not a string: only h is defined on it
@@ -775,15 +925,28 @@ def check_kinds(text, st, I, kind):
         if key not in I:
             I[key] = Template("${v | n,%s}" % name).render_unicode
         op = name if kind == "plain" else "%s[%s]" % (name, kind)
-        for route, f in (("direct", I["direct"][name]), ("template", I[key])):
+        routes = [("direct", I["direct"][name]), ("template", I[key])]
+        if nonstr:
+            # h and entity take any object; the other filters see it only behind the default str filter
+            routes = (routes if name in ("h", "entity") else []) + [("template-str", I["tmpl"][name])]
+        for route, f in routes:
             st.evaluations += 1
             st.transitions += 1
             st.oracles[name] += 1
+            n0 = v.n if kind == "changing" else 0
             try:
                 out = f(v) if route == "direct" else f(v=v)
             except Exception as e:  # noqa
                 viol.append((op, route, "raises " + type(e).__name__, "%s raises" % name, "%s: %s" % (type(e).__name__, str(e)[:200])))
                 continue
+            if kind == "changing":
+                # the result must come from a text the object produced during this very call
+                if v.n == n0:
+                    viol.append((op, route, "value not consulted", "the filter answered without asking the value for its text", str(out)))
+                    continue
+                text = v.last
+            elif nonstr:
+                text = str(v)
             if name == "h" and kind in ("markup", "htmlobj"):
                 # a value that declares itself safe: the statement is about plain strings; either answer is accepted
                 r = None if isinstance(out, str) and (str(out) == text or o_markup(name, text, out) is None) else ("neither the text nor its escaped form", "h on a self-declared safe value")
@@ -813,9 +976,14 @@ def run_step(step, strings, st, I):
             viol = check_kinds(s, st, I, step[1])
         elif step[0] == "decode":
             viol = check_string(s, st, I, parts=("decode",), decs=[step[1]])
+        elif step[0] == "dbytes":
+            viol = []
         else:
             raise ValueError(step)
         out.extend((s, v) for v in viol)
+    if step[0] == "dbytes":
+        for hx in step[2]:
+            out.extend((hx, v) for v in check_dbytes(bytes.fromhex(hx), st, I, step[1]))
     return out
 
 
@@ -874,12 +1042,12 @@ def check_sequences(groups, seed, st):
             st.outcomes["seq:%s>%s:%s" % (steps[0][0], steps[1][0], "fails" if r["fails"] else "ok")] += 1
             st.extra["sequences"] = st.extra.get("sequences", 0) + 1
         # a failure that also happens as the very first step of a process is not order-dependent
-        first = {(tuple(case["steps"][0]), f["op"], f["route"], f["sig"], f["s"]) for case, r in res for f in r["fails"] if f["step"] == 0}
+        first = {(repr(case["steps"][0]), f["op"], f["route"], f["sig"], f["s"]) for case, r in res for f in r["fails"] if f["step"] == 0}
         for case, r in res:
             for f in r["fails"]:
                 sig = full_sig(f["op"].split("[")[0], f["sig"])  # the kind of value is in the case, not in the footprint
                 if f["step"] > 0:
-                    if (tuple(case["steps"][f["step"]]), f["op"], f["route"], f["sig"], f["s"]) in first:
+                    if (repr(case["steps"][f["step"]]), f["op"], f["route"], f["sig"], f["s"]) in first:
                         continue
                     sig = order_sig(f["op"], ":after " + STEP_TEXT[case["steps"][0][0]])
                 vcase = dict(case, step=f["step"], s=f["s"], op=f["op"], route=f["route"])
@@ -892,6 +1060,7 @@ _SAMPLE_CPS = {0x3C: 1, 0x85: 0, 0xE9: 2, 0x20AC: 3, 0x4E2D: 4, 0x1D11E: 1}
 NJOBS_CP = 48
 NJOBS_W = 16
 NJOBS_SEQ = 16
+NJOBS_REF = 4
 
 
 def plan(tier, seed):
@@ -900,6 +1069,8 @@ def plan(tier, seed):
         jobs.append({"kind": "cp", "tier": tier, "seed": seed, "shard": i, "nshards": NJOBS_CP})
     for i in range(NJOBS_W):
         jobs.append({"kind": "words", "tier": tier, "seed": seed, "shard": i, "nshards": NJOBS_W})
+    for i in range(NJOBS_REF):
+        jobs.append({"kind": "refs", "tier": tier, "seed": seed, "shard": i, "nshards": NJOBS_REF})
     groups = seq_groups(tier, seed)
     seqjobs = [{"kind": "seq", "tier": tier, "seed": seed, "groups": groups[i::NJOBS_SEQ]} for i in range(NJOBS_SEQ)]
     # heavy (cp) shards first, permuted by the seed
@@ -936,6 +1107,25 @@ def run_job(job):
                     st.sample({"family": "i", "context": t, "code_point": "U+%04X" % cp, "string": s})
         st.extra["code_points"] = len(cps)
         st.extra["strings_i"] = n
+    elif job["kind"] == "refs":
+        sp = ref_spellings()
+        rctx = [c.replace("A", d["A"]).replace("B", d["B"]) for c in REF_CONTEXTS]
+        cands = [(t.replace("{}", x), True) for x in sp for t in rctx]
+        cands += [(x + y, tier != "quick") for x in sp for y in sp]
+        seen = set()
+        import zlib
+
+        for s, tm in cands:
+            if zlib.crc32(s.encode("utf-8")) % job["nshards"] != job["shard"]:
+                continue
+            if s in seen or in_family_i(s, tier, ctxs) or in_family_ii(s, tier, d):
+                st.extra["duplicates_skipped"] = st.extra.get("duplicates_skipped", 0) + 1
+                continue
+            seen.add(s)
+            check_case(s, st, I, tm)
+            if len(seen) % 1201 == 600:
+                st.sample({"family": "vi", "string": s})
+        st.extra["strings_vi"] = len(seen)
     else:
         M = d["M"]
         wctx = word_contexts(tier, d)
